@@ -43,7 +43,7 @@ def gen_program(seed: int, prop: str, run: int, profile: dict):
         if d.get("total_bottom_detuning") is not None and d["total_bottom_detuning"] > d["bottom_detuning"]:
             d["bottom_detuning"] = d["total_bottom_detuning"]
     dev["max_sequence_duration"] = None
-    reg = W.gen_register(wr, n_min=1, n_max=profile.get("n_max", 3), dim3_p=0.3)
+    reg = W.gen_register(wr, n_min=1, n_max=profile.get("n_max", 3), dim3_p=0.3, int_ids_p=profile.get("int_ids_p", 0.0))
     world = {"device": dev, "register": reg}
     if profile.get("vary_sampling_rate"):
         # per-run tuning knob: the emulator keeps int(rate * T) of the T samples
